@@ -12,6 +12,8 @@
 //!         parses the subtable bytes and applies it at idx through the real Apply impl;
 //!         infos = gid:glyph_props:lig_props,...; the <model...> tokens are for the Lean side only
 //!         -> ok <applied 0|1> <idx'> <has 0|1> <pos...>
+//!   gp subd <ppem_x> <ppem_y> <kind> <hex> <props> <dir> <idx> <infos> <model...> | <pos...>
+//!         the same on a face whose pixels-per-em are set (Device tables of value records become active)
 //!   gp plan <fontid> <dir>                                 GPOS lookups of the plan (DFLT script, no user features)
 //!         -> ok <idx:mask:auto_zwnj:auto_zwj:per_syllable,...|->
 //!   gp pos <fontid> <dir> <finish 0|1> <infos> FONT <ints…> MAPS <ints…> | <pos...>
@@ -27,14 +29,21 @@
 //!         what the plan says (else `plan-mismatch`); <subs> is for the Lean side
 //!         -> ok <has> <gids,...> <pos...>
 //!   kern f0 <kernhex> <n> <left> <right> <pairs>          glyphs_kerning of subtable n -> ok <value>
+//!   kerx plan <kerxhex> <dir> <kern 0|1|->                -> ok <kern_mask> <requested> <apply_kerx>
+//!   kerx drv <kerxhex> <dir> <kern 0|1|-> <mask> <requested> <subs> <infos> | <pos...>
+//!         aat_layout_kerx_table::apply on a face whose only layout table is this `kerx`; as `kern drv`, but
+//!         infos = gid:mask:class:di with class 0 none / 1 base / 2 ligature / 3 mark (glyph_props)
+//!         -> ok <has> <gids,...> <pos...>
+//!   kerx kv <kerxhex> <n> <left> <right>                  format and glyphs_kerning of subtable n -> ok <format> <value>
 use super::util::hex_bytes;
 use rustybuzz::ttf_parser;
 use rustybuzz::verif::gpos as g;
 use rustybuzz::verif::kerning as k;
+use rustybuzz::verif::kerx as kx;
 use rustybuzz::verif::layout as vl;
 use rustybuzz::{Direction, Face, Feature, ShapePlan};
 
-pub const CMDS: &[&str] = &["gp", "kern"];
+pub const CMDS: &[&str] = &["gp", "kern", "kerx"];
 
 fn dir(s: &str) -> Option<Direction> {
     Some(match s {
@@ -87,6 +96,10 @@ fn head() -> Vec<u8> {
 }
 
 fn with_face<R>(kern: Option<&[u8]>, f: impl FnOnce(&Face) -> R) -> Option<R> {
+    with_face2(kern, None, f)
+}
+
+fn with_face2<R>(kern: Option<&[u8]>, kerx: Option<&[u8]>, f: impl FnOnce(&Face) -> R) -> Option<R> {
     let head = head();
     let mut hhea = vec![0u8; 36];
     hhea[1] = 1;
@@ -97,6 +110,7 @@ fn with_face<R>(kern: Option<&[u8]>, f: impl FnOnce(&Face) -> R) -> Option<R> {
         hhea: &hhea,
         maxp: &maxp,
         kern,
+        kerx,
         ..Default::default()
     };
     let tf = ttf_parser::Face::from_raw_tables(raw).ok()?;
@@ -136,6 +150,36 @@ fn kinfos(s: &str) -> Option<Vec<k::I>> {
                 v[0].parse().ok()?,
                 v[1].parse().ok()?,
                 if mark != 0 { c[6] as u16 } else { c[5] as u16 },
+                if di != 0 { c[8] as u16 | 7 } else { 7 },
+            ))
+        })
+        .collect()
+}
+
+/// gid:mask:class:di with class 0 none / 1 base glyph / 2 ligature / 3 mark
+fn kxinfos(s: &str) -> Option<Vec<kx::I>> {
+    if s == "-" {
+        return Some(vec![]);
+    }
+    s.split(',')
+        .map(|t| {
+            let v: Vec<&str> = t.split(':').collect();
+            if v.len() != 4 {
+                return None;
+            }
+            let class: u8 = v[2].parse().ok()?;
+            let di: u8 = v[3].parse().ok()?;
+            let c = g::consts();
+            let props: u16 = match class {
+                0 => 0,
+                1 => c[5] as u16,
+                2 => 4, // GlyphPropsFlags::LIGATURE
+                _ => c[6] as u16,
+            };
+            Some((
+                v[0].parse().ok()?,
+                v[1].parse().ok()?,
+                props,
                 if di != 0 { c[8] as u16 | 7 } else { 7 },
             ))
         })
@@ -251,6 +295,51 @@ pub fn handle(toks: &[&str], st: &mut crate::State) -> Option<String> {
                 }
             })
         }
+        ("gp", "subd") => {
+            let ppx: u16 = toks.get(2)?.parse().ok()?;
+            let ppy: u16 = toks.get(3)?.parse().ok()?;
+            let kind: u16 = toks.get(4)?.parse().ok()?;
+            let data = hex_bytes(toks.get(5)?)?;
+            let props: u32 = toks.get(6)?.parse().ok()?;
+            let d = dir(toks.get(7)?)?;
+            let idx: usize = toks.get(8)?.parse().ok()?;
+            let infos: Option<Vec<(u32, u16, u8)>> = toks
+                .get(9)?
+                .split(',')
+                .map(|t| {
+                    let v: Vec<&str> = t.split(':').collect();
+                    if v.len() != 3 {
+                        return None;
+                    }
+                    Some((v[0].parse().ok()?, v[1].parse().ok()?, v[2].parse().ok()?))
+                })
+                .collect();
+            let infos = infos?;
+            let (_, ptoks) = split_bar(&toks[10..])?;
+            let p = pos(ptoks)?;
+            let head = head();
+            let mut hhea = vec![0u8; 36];
+            hhea[1] = 1;
+            hhea[35] = 1;
+            let maxp = [0u8, 0, 0x50, 0, 0xFF, 0xFF];
+            let raw = ttf_parser::RawFaceTables {
+                head: &head,
+                hhea: &hhea,
+                maxp: &maxp,
+                ..Default::default()
+            };
+            let tf = ttf_parser::Face::from_raw_tables(raw).ok()?;
+            let mut face = Face::from_face(tf);
+            face.set_pixels_per_em(Some((ppx, ppy)));
+            Some(
+                match g::apply_subtable(&face, kind, &data, props, d, &infos, &p, idx) {
+                    Some((applied, idx2, ps, has)) => {
+                        format!("ok {} {} {} {}", applied as u8, idx2, has as u8, fmt_pos(&ps))
+                    }
+                    None => "unparsed".to_string(),
+                },
+            )
+        }
         ("kern", "mk") => {
             let d = dir(toks.get(2)?)?;
             let len: usize = toks.get(3)?.parse().ok()?;
@@ -307,6 +396,51 @@ pub fn handle(toks: &[&str], st: &mut crate::State) -> Option<String> {
                     if gs.is_empty() { "-".to_string() } else { gs },
                     fmt_pos(&ps)
                 )
+            })
+        }
+        ("kerx", "plan") => {
+            let data = hex_bytes(toks.get(2)?)?;
+            let d = dir(toks.get(3)?)?;
+            let feats = kern_feats(toks.get(4)?);
+            with_face2(None, Some(&data), |f| {
+                let plan = ShapePlan::new(f, d, None, None, &feats);
+                let (mask, req, _, _, _) = k::plan_kern(&plan);
+                format!("ok {} {} {}", mask, req as u8, kx::plan_apply_kerx(&plan) as u8)
+            })
+        }
+        ("kerx", "drv") => {
+            let data = hex_bytes(toks.get(2)?)?;
+            let d = dir(toks.get(3)?)?;
+            let feats = kern_feats(toks.get(4)?);
+            let mask: u32 = toks.get(5)?.parse().ok()?;
+            let req = *toks.get(6)? == "1";
+            let infos = kxinfos(toks.get(8)?)?;
+            let (_, ptoks) = split_bar(&toks[9..])?;
+            let p = pos(ptoks)?;
+            with_face2(None, Some(&data), |f| {
+                let plan = ShapePlan::new(f, d, None, None, &feats);
+                let (m, r, _, _, _) = k::plan_kern(&plan);
+                if m != mask || r != req {
+                    return format!("plan-mismatch {} {}", m, r as u8);
+                }
+                let (gids, ps, has) = kx::kerx_driver(&plan, f, &infos, &p, infos.len(), d);
+                let gs = gids.iter().map(|x| x.to_string()).collect::<Vec<_>>().join(",");
+                format!(
+                    "ok {} {} {}",
+                    has as u8,
+                    if gs.is_empty() { "-".to_string() } else { gs },
+                    fmt_pos(&ps)
+                )
+            })
+        }
+        ("kerx", "kv") => {
+            let data = hex_bytes(toks.get(2)?)?;
+            let n: usize = toks.get(3)?.parse().ok()?;
+            let l: u16 = toks.get(4)?.parse().ok()?;
+            let r: u16 = toks.get(5)?.parse().ok()?;
+            with_face2(None, Some(&data), |f| match kx::subtable_kerning(f, n, l, r) {
+                Some((fmt, v)) => format!("ok {} {}", fmt, v),
+                None => "none".to_string(),
             })
         }
         ("kern", "f0") => {
